@@ -121,6 +121,9 @@ class Run:
             out = [None] * len(cases)
             for i, c in enumerate(cases):
                 o = impl[mode][i]
+                if not isinstance(o, int) and o[0] == 'app' and o[1] in ('Crash', 'Hang', 'Unparsable'):
+                    out[i] = False      # the implementation crashed, hung or printed garbage on this case
+                    continue
                 try:
                     e = mod.oracle_expr(c, mode, o)
                 except Exception:
